@@ -638,7 +638,7 @@ fn batch_case(seed: u64, idx: u64, thorough: bool, stats: &mut Counts) -> Result
             .map(|i| db.keyspace(&format!("b{i}"), || KeyspaceCreateOptions::default().max_memtable_size(memtable)))
             .collect::<fjall::Result<_>>()
             .map_err(|e| Deviation::new("unexpected-error:keyspace", format!("{e:?}")))?;
-        // group keys of writer w: key "w{w}-{i}" in keyspace i % nks
+        // group keys of writer w: member i is key "w{w}-{i / nks}" in keyspace i % nks (the same key names in every keyspace)
         let stop = Arc::new(AtomicBool::new(false));
         let commits: Arc<Mutex<Vec<(usize, u64, u64, u64)>>> = Arc::new(Mutex::new(Vec::new())); // (w, j, call, ret)
         let views: Arc<Mutex<Vec<ViewObs>>> = Arc::new(Mutex::new(Vec::new()));
@@ -673,7 +673,7 @@ fn batch_case(seed: u64, idx: u64, thorough: bool, stats: &mut Counts) -> Result
                                     .collect();
                                 let mut tx = s.write_tx();
                                 for i in 0..group {
-                                    tx.insert(&tks[i % kss.len()], format!("w{w}-{i}"), token.clone());
+                                    tx.insert(&tks[i % kss.len()], format!("w{w}-{}", i / kss.len()), token.clone());
                                 }
                                 call = tick();
                                 let r0 = tx.commit();
@@ -689,7 +689,7 @@ fn batch_case(seed: u64, idx: u64, thorough: bool, stats: &mut Counts) -> Result
                                     }
                                 };
                                 for i in 0..group {
-                                    tx.insert(&kss[i % kss.len()], format!("w{w}-{i}"), token.clone());
+                                    tx.insert(&kss[i % kss.len()], format!("w{w}-{}", i / kss.len()), token.clone());
                                 }
                                 call = tick();
                                 let r0 = tx.commit();
@@ -702,7 +702,7 @@ fn batch_case(seed: u64, idx: u64, thorough: bool, stats: &mut Counts) -> Result
                             } else {
                                 let mut b = db.batch();
                                 for i in 0..group {
-                                    b.insert(&kss[i % kss.len()], format!("w{w}-{i}"), token.clone());
+                                    b.insert(&kss[i % kss.len()], format!("w{w}-{}", i / kss.len()), token.clone());
                                 }
                                 call = tick();
                                 let r0 = b.commit();
@@ -769,7 +769,7 @@ fn batch_case(seed: u64, idx: u64, thorough: bool, stats: &mut Counts) -> Result
                                 create_ret = tick();
                                 for w in 0..writers {
                                     for i in 0..group {
-                                        match snap.get(&kss[i % kss.len()], format!("w{w}-{i}")) {
+                                        match snap.get(&kss[i % kss.len()], format!("w{w}-{}", i / kss.len())) {
                                             Ok(v) => note(w, i, v.map_or(0, |v| tok(&v)), "snapshot get", &mut vec),
                                             Err(e) => {
                                                 problems.lock().unwrap().push(Deviation::new("view:read-error", format!("{e:?}")));
@@ -784,14 +784,14 @@ fn batch_case(seed: u64, idx: u64, thorough: bool, stats: &mut Counts) -> Result
                                 let snap = db.snapshot();
                                 create_ret = tick();
                                 let mut seen: HashMap<(usize, usize), u64> = HashMap::new();
-                                for ks in &kss {
+                                for (ksi, ks) in kss.iter().enumerate() {
                                     for g in snap.iter(ks) {
                                         match g.into_inner() {
                                             Ok((k, v)) => {
                                                 let s = String::from_utf8_lossy(&k).to_string();
                                                 if let Some((a, b)) = s[1..].split_once('-') {
-                                                    if let (Ok(w), Ok(i)) = (a.parse::<usize>(), b.parse::<usize>()) {
-                                                        seen.insert((w, i), tok(&v));
+                                                    if let (Ok(w), Ok(b)) = (a.parse::<usize>(), b.parse::<usize>()) {
+                                                        seen.insert((w, b * kss.len() + ksi), tok(&v));
                                                     }
                                                 }
                                             }
@@ -820,8 +820,8 @@ fn batch_case(seed: u64, idx: u64, thorough: bool, stats: &mut Counts) -> Result
                                         Ok((k, v)) => {
                                             let s = String::from_utf8_lossy(&k).to_string();
                                             if let Some((a, b)) = s[1..].split_once('-') {
-                                                if let (Ok(w), Ok(i)) = (a.parse::<usize>(), b.parse::<usize>()) {
-                                                    seen.insert((w, i), tok(&v));
+                                                if let (Ok(w), Ok(b)) = (a.parse::<usize>(), b.parse::<usize>()) {
+                                                    seen.insert((w, b * kss.len() + ksi), tok(&v));
                                                 }
                                             }
                                         }
